@@ -17,7 +17,8 @@ clients.len() < max_clients and nothing else inserts.  (4) Merge, exhaustive ove
 field of self; receive_client_stats merges every element of every popped vector until the queue is empty.  (5) Wiring: routing arms record the matching request
 operation (C09.2); after each send exactly one of add_{classic,rfc}_response(ip, n) with n the Ok value of send_to (by version) or add_failed_send_attempt is
 recorded; send_client_stats clears the recorder only after the snapshot was pushed, and re-arms the one-shot status timer on every path.
-The reporter's table is written only through entry(addr)..merge (cleared right after report()) and every popped snapshot goes through the merge loop.
+The reporter's table is written only through entry(addr)..merge (cleared right after report()) and every popped snapshot goes through the merge loop.Receive wiring: every way out of the Ok arm of recv_from (next iteration or return) passes exactly one add_{ietf,classic,invalid}_request, recorded where the
+datagram was classified that way and for the sender's IP address.
 """
 NOT_DECIDED = "arithmetic totals for a given history (follow from 1-5 by counting); force_push on a full queue evicts an unread snapshot (observation, not a claim)"
 TRUSTED = ["HashMap::entry().or_insert_with_key inserts at most one key", "crossbeam ArrayQueue"]
